@@ -106,6 +106,9 @@ type Sim struct {
 	Log      func(format string, args ...any)
 	dbSeq    int
 	EPIC     bool
+	// Perm, if set, chooses the order in which queued beacons are delivered (a permutation of
+	// 0..n-1 applied after the deterministic sort). It models beacon propagation orders.
+	Perm func(n int) []int
 }
 
 type delivery struct {
@@ -379,6 +382,14 @@ func (s *Sim) Deliver(ctx context.Context) (ok, rejected int) {
 		}
 		return q[i].egress < q[j].egress
 	})
+	if s.Perm != nil && len(q) > 1 {
+		p := s.Perm(len(q))
+		q2 := make([]delivery, len(q))
+		for i, j := range p {
+			q2[i] = q[j]
+		}
+		q = q2
+	}
 	for _, d := range q {
 		from := s.ASes[d.from]
 		var ifc *IfSpec
